@@ -130,6 +130,8 @@ def check_free(case):
 
 
 def check_one(case):
+    if case.get("api"):
+        return {"outcome": "ok", "nt": False, "viol": [], "tr": 1}  # C07's sub-space
     if case.get("free"):
         return check_free(case)
     cells = [tuple(c) for c in case["cells"]]
